@@ -50,6 +50,7 @@ type c18Tree struct {
 	format   string // wrap format asked for: "" (default, uuid) or "jwt"
 	home     *c18NS // the namespace the wrapping token actually lives in (JWT-format tokens: root, by design)
 	noted    map[string]bool
+	leaseID  string // lease id of the fresh token (read off its lease record's key)
 	stranded string // set when cubbyhole records of the fresh token lie in another namespace's store than the token
 }
 
@@ -298,6 +299,8 @@ func (tr *c18Tree) run(tag string, op c18nsOp, w *c18Wrap) (*logical.Response, e
 		q.Path, q.Data = "auth/token/revoke-orphan", map[string]any{"token": w.ID}
 	case "revoke-accessor":
 		q.Path, q.Data = "auth/token/revoke-accessor", map[string]any{"accessor": w.Accessor}
+	case "revoke-lease":
+		q.Path, q.Data = "sys/leases/revoke", map[string]any{"lease_id": tr.leaseID}
 	default:
 		panic(op.Kind)
 	}
@@ -399,6 +402,9 @@ func (tr *c18Tree) born(t *testing.T, w *c18Wrap) (*c18Ident, []string) {
 		t.Fatalf("verif: records of a fresh wrapping token (format %q): found %v, want %v (%v)", w.Format, kinds, want, made)
 	}
 	for _, k := range made {
+		if i := strings.Index(k, "sys/expire/id/"); i >= 0 {
+			tr.leaseID = k[i+len("sys/expire/id/"):]
+		}
 		if strings.HasPrefix(c18nsKeyKind(k), "cubbyhole/") && tr.nsOfKey(k) != id.NS.Path {
 			tr.stranded = tr.nsOfKey(k)
 		}
@@ -933,8 +939,8 @@ func TestVerif_C18_Namespaces(t *testing.T) {
 						if kit.Tier() == "quick" && (oi+wi+fi+int(seed)+int(b2u18(tx)))%3 != ki {
 							continue
 						}
-						// quick: the JWT format for every second combination (all of them over two seeds)
-						if kit.Tier() == "quick" && format == "jwt" && (oi+wi+int(seed))%2 != 0 {
+						// quick: the JWT format for every third combination (all of them over three seeds)
+						if kit.Tier() == "quick" && format == "jwt" && (oi+wi+int(seed))%3 != 0 {
 							continue
 						}
 						if n%nshards != shard {
@@ -959,10 +965,10 @@ func TestVerif_C18_Namespaces(t *testing.T) {
 		tr.v.Close()
 	}
 	r.Require("ttl_expiry_checks_in_namespaces", 8)
-	r.Require("jwt_tokens_requested_in_a_child_namespace:exactly_one_reveal", 200)
-	r.Require("jwt_tokens_requested_in_a_child_namespace:payload", 60)
-	r.Require("jwt_unwraps_succeeded:first-party-unwrap", 10)
-	r.Require("jwt_unwraps_succeeded:unwrap", 60)
+	r.Require("jwt_tokens_requested_in_a_child_namespace:exactly_one_reveal", 150)
+	r.Require("jwt_tokens_requested_in_a_child_namespace:payload", 40)
+	r.Require("jwt_unwraps_succeeded:first-party-unwrap", 6)
+	r.Require("jwt_unwraps_succeeded:unwrap", 40)
 	r.Require("rewraps_succeeded:cross-namespace", 40)
 	r.Require("revocations_succeeded:cross-namespace", 40)
 	r.Require("first_party_refusals_that_consumed_the_token", 40)
